@@ -171,6 +171,23 @@ def check_hash(ctx):
                     if t.kind == "ext" and t.target.startswith("hashlib."):
                         # digest of the typechecker string
                         arg_names = {x.id for a in inner.args for x in ast.walk(a) if isinstance(x, ast.Name)}
+                        # the digest must tell any two typechecker strings apart: nothing lossy is applied to the string before it is hashed
+                        # (the hash is the cache tag *and* the key under which the decorator is looked up when an instrumented module runs)
+                        srcs = list(inner.args)
+                        from . import c05 as _c05
+
+                        for nm_ in sorted(arg_names - {init.params[1]}):
+                            for _, val_, _ in _c05._assignments_to(init, nm_):
+                                if val_ is not None:
+                                    srcs.append(val_)
+                        lossy = [c_ for a in srcs for c_ in ast.walk(a) if isinstance(c_, ast.Call) and isinstance(c_.func, ast.Attribute)
+                                 and c_.func.attr in ("split", "rsplit", "join", "strip", "lstrip", "rstrip", "lower", "upper", "casefold", "replace", "translate", "sub", "partition", "rpartition", "title", "capitalize", "expandtabs")]
+                        lossy += [c_ for a in srcs for c_ in ast.walk(a) if isinstance(c_, ast.Subscript) and isinstance(c_.slice, ast.Slice)]
+                        if lossy and (init.params[1] in arg_names or any(isinstance(x, ast.Name) and x.id == init.params[1] for a in srcs for x in ast.walk(a))):
+                            ctx.bad("C18.2", init, st, f"the typechecker string is normalised (`{short(lossy[0], 50)}`) before it is hashed: two different typechecker expressions (differing, say, "
+                                    "inside a string literal) get one hash -- one cache tag and one entry in the lookup the instrumented modules resolve their decorator from, so modules "
+                                    "loaded by one hook are checked by the other hook's checker", construct=f"lossy hash input: {short(lossy[0], 50)}")
+                            continue
                         if init.params[1] in arg_names:
                             ok = True
                         else:
